@@ -232,13 +232,13 @@ def run(chk, rng, replay=None):
         "calls_by_solver": per_kind, "degeneracies_hit": stats(out), "largest_norm_over_radius": ratio,
         "solver_crashes": len(crashed), "predicate_failures": len(fails),
     })
-    tstat, tmism = tcg_correspondence(rng, 150 if chk.tier == "quick" else 3000) if replay is None else ({}, [])
+    tstat, tmism = tcg_correspondence(rng, 150 if chk.tier == "quick" else 1500) if replay is None else ({}, [])
     chk.coverage["loop_model_correspondence_tangential_first_phase"] = tstat
     # the solver as a whole (both phases, improve_tcg=True) against Alg/TcgImprove.lean `tcgFull`
-    wstat, wmism = tcg_correspondence(rng, 150 if chk.tier == "quick" else 3000, whole=True) if replay is None else ({}, [])
+    wstat, wmism = tcg_correspondence(rng, 150 if chk.tier == "quick" else 1500, whole=True) if replay is None else ({}, [])
     chk.coverage["whole_solver_correspondence_tangential_both_phases"] = wstat
     # the first phase of the linearly constrained solver against Alg/Ctcg.lean `ctcg`
-    cstat, cmism2 = (ctcg_correspondence(rng, 150, nmax=3) if chk.tier == "quick" else ctcg_correspondence(rng, 2500, nmax=4)) if replay is None else ({}, [])
+    cstat, cmism2 = (ctcg_correspondence(rng, 150, nmax=3) if chk.tier == "quick" else ctcg_correspondence(rng, 600, nmax=4)) if replay is None else ({}, [])
     chk.coverage["loop_model_correspondence_constrained_tangential_first_phase"] = cstat
     tmism = tmism + wmism + cmism2
     chk.assumptions += ["kernel theorems are exact-arithmetic; the working-set / QR loops of the constrained solvers are not modelled and are covered by the sampled calls only",
